@@ -1,6 +1,6 @@
 (* C16 (model-free part): the answer of a long-lived instance must equal the answer of a freshly
    loaded instance and of a clone, request by request; two models paged alternately must each
-   see their own paging sequence. *)
+   page through their own cycle (judged by the truth table of each). *)
 open Blocks
 
 let check_history (b : block) : verdict list =
@@ -36,23 +36,109 @@ let check_history (b : block) : verdict list =
     bump_by "history_requests" !n_ops;
     match List.rev !out with [] -> [Ok] | l -> [List.hd l]
 
+(* C16X: two different models paged alternately in one process, same assumptions.
+   ORACLE (truth tables only): the pages of either model, taken on their own, must be what C06 says
+   about ONE model: each page holds min(k, not yet returned in this cycle) complete, pairwise
+   distinct models of THAT model's truth table that contain the assumptions, none of them returned
+   before in the running cycle; after count(A) configurations the cycle restarts; `none` exactly
+   when no model contains the assumptions.  Without a truth table (n > 10) the reference is the
+   same request sequence on a further fresh instance of that model with nothing in between.
+   Signature: enumerate:cursor-shared-across-models when the model paged alone passes the same
+   oracle (or the harness was built against a ddnnife whose cursor is process-global, where no
+   instance is ever alone); enumerate:paging-wrong when it fails alone as well (that is C06's
+   business, reported here all the same).  Since repair F21 there is no finding line for the
+   first signature: any occurrence is a violation. *)
+let parse_page (toks : string list) : (int list list option, string) result =
+  match toks with
+  | "PANIC" :: m -> Stdlib.Error (String.concat " " m)
+  | ["none"] -> Stdlib.Ok None
+  | ["empty"] -> Stdlib.Ok (Some [])
+  | _ -> (try Stdlib.Ok (Some (List.map Chk_ops.ints (Chk_ops.split_on ";" toks))) with _ -> Stdlib.Error "unreadable answer")
+
+(* the per-model cycle oracle; returns the first complaint *)
+let cycle_oracle (n : int) (tbl : int list) (pages : (int * int list * string list) list) : string option =
+  let bad = ref None in
+  let complain m = if !bad = None then bad := Some m in
+  let cycles : (int list, (int, unit) Hashtbl.t) Hashtbl.t = Hashtbl.create 4 in
+  List.iter (fun (k, a, toks) ->
+      let show = String.concat " " toks in
+      let ta = List.filter (fun m -> List.for_all (Chk_ops.holds m) a) tbl in
+      let cnt = List.length ta in
+      match parse_page toks with
+      | Stdlib.Error m -> complain (Printf.sprintf "enumerate(%d) panicked: %s" k m)
+      | Stdlib.Ok None -> if cnt > 0 then complain (Printf.sprintf "enumerate(%d) reported unsatisfiable, %d models contain the assumptions" k cnt)
+      | Stdlib.Ok (Some l) ->
+        if cnt = 0 then complain (Printf.sprintf "enumerate(%d) returned {%s} but no model contains the assumptions" k show)
+        else begin
+          let key = List.sort_uniq compare a in
+          let seen = match Hashtbl.find_opt cycles key with
+            | Some h -> h | None -> let h = Hashtbl.create 16 in Hashtbl.replace cycles key h; h in
+          let remaining = cnt - Hashtbl.length seen in
+          if List.length l <> min k remaining then
+            complain (Printf.sprintf "enumerate(%d) returned %d configurations {%s}; %d of its %d models were not yet returned in this cycle"
+                        k (List.length l) show remaining cnt);
+          List.iter (fun cfg ->
+              if not (Chk_enum.complete_sorted n cfg) then complain (Printf.sprintf "[%s] is not one literal per feature" (String.concat " " (List.map string_of_int cfg)))
+              else begin
+                let m = Chk_enum.mask_of cfg in
+                if not (List.mem m ta) then complain (Printf.sprintf "[%s] is not a model of this circuit containing the assumptions" (String.concat " " (List.map string_of_int cfg)))
+                else if Hashtbl.mem seen m then complain (Printf.sprintf "[%s] was already returned in this cycle of this model" (String.concat " " (List.map string_of_int cfg)))
+                else Hashtbl.replace seen m ()
+              end) l;
+          if Hashtbl.length seen >= cnt then Hashtbl.reset seen
+        end) pages;
+  !bad
+
 let check_cross (b : block) : verdict list =
+  if impl b "panic" <> None then [Viol ("load:panic", "loading panicked")] else begin
   let inter = Hashtbl.create 4 and refs = Hashtbl.create 4 in
   let add tbl m v = Hashtbl.replace tbl m ((try Hashtbl.find tbl m with Not_found -> []) @ [v]) in
+  let entry rest =
+    match Chk_ops.split_on "=" rest with
+    | [ka; page] ->
+      (match Chk_ops.split_on "|" ka with
+       | [[k]; a] -> Some (int_of_string k, Chk_ops.ints a, page)
+       | _ -> None)
+    | ka :: pages ->   (* a '=' inside a panic message *)
+      (match Chk_ops.split_on "|" ka with
+       | [[k]; a] -> Some (int_of_string k, Chk_ops.ints a, List.concat pages)
+       | _ -> None)
+    | [] -> None in
   List.iter (fun (kw, toks) ->
       match kw, toks with
-      | "xenum", m :: k :: "=" :: rest -> add inter m (k, String.concat " " rest)
-      | "xref", m :: k :: "=" :: rest -> add refs m (k, String.concat " " rest)
+      | "xenum", m :: rest -> (match entry rest with Some e -> add inter m e | None -> ())
+      | "xref", m :: rest -> (match entry rest with Some e -> add refs m e | None -> ())
       | _ -> ()) b.lines;
-  let bad = ref None in
-  Hashtbl.iter (fun m pages ->
-      let expected = try Hashtbl.find refs m with Not_found -> [] in
-      if pages <> expected && !bad = None then
-        bad := Some (Printf.sprintf "model %s paged alternately with another model returned {%s}; alone in the process it returns {%s}"
-                       m (String.concat " | " (List.map snd pages)) (String.concat " | " (List.map snd expected)))) inter;
+  let global_cursor = (find b "cursor_per_model" = Some ["0"]) in
+  let ns = List.filter_map (function [m; n] -> Some (m, int_of_string n) | _ -> None) (find_all b "xn") in
+  let tbls = List.filter_map (function m :: ms -> Some (m, List.map int_of_string ms) | _ -> None) (find_all b "xmodels") in
+  let out = ref [] in
+  List.iter (fun m ->
+      let pages = try Hashtbl.find inter m with Not_found -> [] in
+      let alone = try Hashtbl.find refs m with Not_found -> [] in
+      let verdict =
+        match List.assoc_opt m tbls, List.assoc_opt m ns with
+        | Some tbl, Some n ->
+          bump "cross_model_sequences_judged_by_truth_table";
+          (match cycle_oracle n tbl pages with
+           | None -> None
+           | Some msg ->
+             let alone_ok = (cycle_oracle n tbl alone = None) in
+             Some ((if alone_ok || global_cursor then "enumerate:cursor-shared-across-models" else "enumerate:paging-wrong"),
+                   Printf.sprintf "model %s paged alternately with another model: %s; its pages were {%s}%s" m msg
+                     (String.concat " | " (List.map (fun (_, _, p) -> String.concat " " p) pages))
+                     (if alone_ok then Printf.sprintf "; paged alone it returns {%s}" (String.concat " | " (List.map (fun (_, _, p) -> String.concat " " p) alone)) else "")))
+        | _ ->
+          bump "cross_model_sequences_judged_against_the_model_alone";
+          if pages <> alone then
+            Some ("enumerate:cursor-shared-across-models",
+                  Printf.sprintf "model %s paged alternately with another model returned {%s}; alone in the process it returns {%s}" m
+                    (String.concat " | " (List.map (fun (_, _, p) -> String.concat " " p) pages))
+                    (String.concat " | " (List.map (fun (_, _, p) -> String.concat " " p) alone)))
+          else None in
+      match verdict with Some (sg, msg) -> out := Viol (sg, msg) :: !out | None -> ()) ["0"; "1"];
   bump "cross_model_histories";
-  match !bad with
-  | Some msg -> [Viol ("enumerate:cursor-shared-across-models", msg)]
-  | None -> [Ok]
+  match List.rev !out with [] -> [Ok] | l -> l
+  end
 
 let kinds = ["C16H", check_history; "C16X", check_cross]
